@@ -438,3 +438,250 @@ example :
     s.length = 2 ∧ s.Nodup ∧ importL (exportL s) = s := by decide
 
 end Harper.C14
+
+/-! ## w26-s7 — "only that lint", and its one exception: twins
+
+`IgnoredLints::ignore_lint` stores (the hash of) `LintContext::from_lint(lint, document)`;
+`is_ignored` / `remove_ignored` look a lint's own context up. The span is NOT part of the context
+(only the tokens of the three windows are), nor is the lint's index. So "only that lint" is, exactly,
+"only the lints with that context": lints with another context are never affected
+(`ignore_hides_only_that_context`, `ignore_many_hidden_iff`, `ignoreIds_hidden_iff`), lints with the
+same context — *twins*, e.g. the same misspelling twice with the same neighbours — always go together
+(`twin_context_hidden_together`, `only_that_lint_fails_for_twins`), and twins are the only exception
+(`hidden_by_ignore_only_if_twin`). -/
+
+namespace Harper.C14
+open Harper.Ignore
+
+/-- The master equation of `ignore_lint` then `is_ignored`, any two documents: after ignoring `l₁`
+(of document `toks₁`), `l₂` (of `toks₂`) is hidden iff it was hidden before or has `l₁`'s context. -/
+theorem ignore_effect_on_other (s : IgnoreSet) (l₁ l₂ : LintM) (toks₁ toks₂ : List Tok) :
+    isIgnored (ignoreLint s l₁ toks₁) l₂ toks₂
+      = (isIgnored s l₂ toks₂ || decide (contextOf l₂ toks₂ = contextOf l₁ toks₁)) :=
+  isIgnored_ignoreLint s l₁ l₂ toks₁ toks₂
+
+/-- "Only that lint", two-lint form (`ignore_lint` / `is_ignored` / `remove_ignored`): if `l₂`'s
+context differs from `l₁`'s, ignoring `l₁` changes nothing for `l₂` — not hidden if it was not,
+still hidden if it was; and it is in the filtered result after iff it was before. (The list form —
+the result after is the result before minus exactly the lints with `l₁`'s context — is
+`ignore_removes_exactly`; the second half here is derived from it.) -/
+theorem ignore_hides_only_that_context (s : IgnoreSet) (l₁ l₂ : LintM) (toks : List Tok)
+    (lints : List LintM) (hne : contextOf l₂ toks ≠ contextOf l₁ toks) :
+    isIgnored (ignoreLint s l₁ toks) l₂ toks = isIgnored s l₂ toks ∧
+    (l₂ ∈ removeIgnored (ignoreLint s l₁ toks) lints toks ↔ l₂ ∈ removeIgnored s lints toks) := by
+  refine ⟨?_, ?_⟩
+  · rw [ignore_effect_on_other]; simp [hne]
+  · rw [ignore_removes_exactly, List.mem_filter]; simp [hne]
+
+/-- non-vacuity of ignore_hides_only_that_context, both directions inside ONE document
+(`a thier a thier`): `lintT₃` (another rule on the second `thier`: other kind / message) has another
+context than `lintT₁`; from the empty set it stays reported, from a set that already hides it it
+stays hidden — while the set does grow. -/
+example : contextOf lintT₃ toksT ≠ contextOf lintT₁ toksT ∧
+    isIgnored [] lintT₃ toksT = false ∧ isIgnored (ignoreLint [] lintT₁ toksT) lintT₃ toksT = false ∧
+    lintT₃ ∈ removeIgnored (ignoreLint [] lintT₁ toksT) [lintT₁, lintT₂, lintT₃] toksT ∧
+    (let s := ignoreLint [] lintT₃ toksT
+     isIgnored s lintT₃ toksT = true ∧ isIgnored (ignoreLint s lintT₁ toksT) lintT₃ toksT = true ∧
+     (ignoreLint s lintT₁ toksT).length = 2 ∧
+     removeIgnored s [lintT₁, lintT₂, lintT₃] toksT = [lintT₁, lintT₂] ∧
+     removeIgnored (ignoreLint s lintT₁ toksT) [lintT₁, lintT₂, lintT₃] toksT = []) := by decide
+
+/-- the same word, the same message, NOT twins: in `teh cat. teh cat.` the first `teh` starts the
+document, so `pulled_by(2)` yields no tokens before it, the second has `.␣` before it — ignoring
+the first leaves the second reported (and vice versa) -/
+example : contextOf lintU₂ toksU ≠ contextOf lintU₁ toksU ∧
+    (lintU₂.kind, lintU₂.suggestions, lintU₂.message, lintU₂.priority)
+      = (lintU₁.kind, lintU₁.suggestions, lintU₁.message, lintU₁.priority) ∧
+    problem toksU lintU₂ = problem toksU lintU₁ ∧ sequel toksU lintU₂ = sequel toksU lintU₁ ∧
+    prequel toksU lintU₁ = [] ∧ prequel toksU lintU₂ = [⟨[46],[1,4]⟩, ⟨[32],[4,1]⟩] ∧
+    removeIgnored (ignoreLint [] lintU₁ toksU) [lintU₁, lintU₂] toksU = [lintU₂] ∧
+    removeIgnored (ignoreLint [] lintU₂ toksU) [lintU₁, lintU₂] toksU = [lintU₁] := by decide
+
+/-- Several `ignore_lint` calls in a row (same document): a lint is hidden afterwards IFF it was
+hidden before or its context equals the context of one of the ignored lints. -/
+theorem ignore_many_hidden_iff (s : IgnoreSet) (ls : List LintM) (l : LintM) (toks : List Tok) :
+    isIgnored (ls.foldl (fun s l' => ignoreLint s l' toks) s) l toks = true ↔
+      isIgnored s l toks = true ∨ ∃ l' ∈ ls, contextOf l toks = contextOf l' toks := by
+  rw [isIgnored_iff_mem, isIgnored_iff_mem, mem_foldl_ignoreLint]
+
+/-- … and the list form: `remove_ignored` after the calls returns what it returned before minus
+exactly the lints that share a context with one of the ignored lints — same order, nothing added,
+nothing else removed. -/
+theorem ignore_many_removes_exactly (s : IgnoreSet) (ls : List LintM) (toks : List Tok)
+    (lints : List LintM) :
+    removeIgnored (ls.foldl (fun s l' => ignoreLint s l' toks) s) lints toks
+      = (removeIgnored s lints toks).filter
+          (fun l => decide (∀ l' ∈ ls, contextOf l toks ≠ contextOf l' toks)) := by
+  rw [removeIgnored_exact, removeIgnored_exact, List.filter_filter]
+  apply List.filter_congr
+  intro x _
+  rw [Bool.eq_iff_iff]
+  simp only [Bool.and_eq_true, decide_eq_true_eq, mem_foldl_ignoreLint]
+  constructor
+  · intro h
+    exact ⟨fun l' hl' he => h (Or.inr ⟨l', hl', he⟩), fun hs => h (Or.inl hs)⟩
+  · rintro ⟨h1, h2⟩ (hs | ⟨l', hl', he⟩)
+    · exact h2 hs
+    · exact h1 l' hl' he
+
+/-- The same for the model's `ignoreIds` (the driver's "ignore the lints with these indices"): a
+lint is hidden afterwards IFF it was hidden before or its context equals the context of a lint
+one of the listed ids stands for. -/
+theorem ignoreIds_hidden_iff (s : IgnoreSet) (lints : List LintM) (toks : List Tok) (ids : List Nat)
+    (l : LintM) :
+    isIgnored (ignoreIds s lints toks ids) l toks = true ↔
+      isIgnored s l toks = true ∨
+      ∃ i ∈ ids, ∃ l', lints.find? (·.id == i) = some l' ∧ contextOf l toks = contextOf l' toks := by
+  rw [isIgnored_iff_mem, isIgnored_iff_mem, mem_ignoreIds]
+  constructor
+  · rintro (h | ⟨l', hl', he⟩)
+    · exact Or.inl h
+    · obtain ⟨i, hi, hf⟩ := mem_idLints.mp hl'
+      exact Or.inr ⟨i, hi, l', hf, he⟩
+  · rintro (h | ⟨i, hi, l', hf, he⟩)
+    · exact Or.inl h
+    · exact Or.inr ⟨l', mem_idLints.mpr ⟨i, hi, hf⟩, he⟩
+
+/-- … list form (`idLints lints ids` = the lints the ids stand for, in the order listed) -/
+theorem ignoreIds_removes_exactly (s : IgnoreSet) (lints : List LintM) (toks : List Tok)
+    (ids : List Nat) (shown : List LintM) :
+    removeIgnored (ignoreIds s lints toks ids) shown toks
+      = (removeIgnored s shown toks).filter
+          (fun l => decide (∀ l' ∈ idLints lints ids, contextOf l toks ≠ contextOf l' toks)) := by
+  rw [ignoreIds_eq_foldl, ignore_many_removes_exactly]
+
+/-- several `ignore_lint` calls are one `IgnoredLints::append` of the contexts -/
+theorem ignore_many_eq_append (s : IgnoreSet) (ls : List LintM) (toks : List Tok) :
+    ls.foldl (fun s l' => ignoreLint s l' toks) s = Ignore.append s (ls.map (contextOf · toks)) :=
+  foldl_ignoreLint_eq_append ls toks s
+
+/-- instances of the sequence theorems in `a thier a thier`: ignoring ids 2 and 7 (7 is no lint)
+hides `lintT₃` only; ignoring ids 2 and 0 hides all three (`lintT₂` as the twin of `lintT₁`) -/
+example :
+    let all := [lintT₁, lintT₂, lintT₃]
+    idLints all [2, 7] = [lintT₃] ∧ idLints all [2, 0] = [lintT₃, lintT₁] ∧
+    removeIgnored (ignoreIds [] all toksT [2, 7]) all toksT = [lintT₁, lintT₂] ∧
+    removeIgnored (ignoreIds [] all toksT [2, 0]) all toksT = [] ∧
+    (ignoreIds [] all toksT [2, 0]).length = 2 ∧
+    isIgnored (ignoreIds [] all toksT [2, 0]) lintT₂ toksT = true ∧
+    all.find? (·.id == 0) = some lintT₁ ∧ contextOf lintT₂ toksT = contextOf lintT₁ toksT := by
+  decide
+
+/-- The exception: TWINS. If `l₂` has the same context as `l₁` — `l₂ ≠ l₁` allowed: another
+index, another span — then ignoring `l₁` DOES hide `l₂`, whatever the set was before. -/
+theorem twin_context_hidden_together (s : IgnoreSet) (l₁ l₂ : LintM) (toks : List Tok)
+    (lints : List LintM) (h : contextOf l₂ toks = contextOf l₁ toks) :
+    isIgnored (ignoreLint s l₁ toks) l₂ toks = true ∧
+    l₂ ∉ removeIgnored (ignoreLint s l₁ toks) lints toks := by
+  refine ⟨?_, ?_⟩
+  · rw [ignore_effect_on_other]; simp [h]
+  · exact fun hm => (ignored_is_removed s l₁ toks lints).2 l₂ hm h
+
+/-- non-vacuity of twin_context_hidden_together, inside ONE document: `a thier a thier`, spelling
+lints on the first (span 2–7) and second (span 10–15) `thier` — different lints, different spans,
+equal contexts: the windows are `a␣` / `thier` / `thier` both times. -/
+example : lintT₂ ≠ lintT₁ ∧ (lintT₂.start, lintT₂.stop) ≠ (lintT₁.start, lintT₁.stop) ∧
+    contextOf lintT₂ toksT = contextOf lintT₁ toksT ∧
+    (prequel toksT lintT₂, problem toksT lintT₂, sequel toksT lintT₂)
+      = ([⟨[97],[0,1]⟩, ⟨[32],[4,1]⟩], [⟨[116,104,105,101,114],[0,0]⟩],
+         [⟨[116,104,105,101,114],[0,0]⟩]) ∧
+    isIgnored [] lintT₂ toksT = false ∧ isIgnored (ignoreLint [] lintT₁ toksT) lintT₂ toksT = true ∧
+    removeIgnored [] [lintT₁, lintT₂, lintT₃] toksT = [lintT₁, lintT₂, lintT₃] ∧
+    removeIgnored (ignoreLint [] lintT₁ toksT) [lintT₁, lintT₂, lintT₃] toksT = [lintT₃] := by decide
+
+/-- "Only that lint", read literally (every OTHER reported lint — another lint at another place —
+stays reported), is **false of the code**, kernel-checked inside one document: in `a thier a thier`
+the user ignores the spelling lint on the first `thier`; the one on the second `thier` disappears
+with it. (`LintContext` has no position; by design of the hash, not an accident of the model.) -/
+theorem only_that_lint_fails_for_twins :
+    ¬ (∀ (s : IgnoreSet) (toks : List Tok) (l₁ l₂ : LintM) (lints : List LintM), l₂ ≠ l₁ →
+        (l₂.start, l₂.stop) ≠ (l₁.start, l₁.stop) → l₂ ∈ removeIgnored s lints toks →
+        l₂ ∈ removeIgnored (ignoreLint s l₁ toks) lints toks) := by
+  intro h
+  have := h [] toksT lintT₁ lintT₂ [lintT₁, lintT₂, lintT₃] (by decide) (by decide) (by decide)
+  revert this
+  decide
+
+/-- Twins are the ONLY exception: if `l₂` was not hidden and ignoring `l₁` hides it, then `l₂` has
+`l₁`'s context. Also in list form: reported before, not reported after ⇒ same context. -/
+theorem hidden_by_ignore_only_if_twin (s : IgnoreSet) (l₁ l₂ : LintM) (toks : List Tok) :
+    (isIgnored s l₂ toks = false → isIgnored (ignoreLint s l₁ toks) l₂ toks = true →
+      contextOf l₂ toks = contextOf l₁ toks) ∧
+    (∀ lints, l₂ ∈ removeIgnored s lints toks →
+      l₂ ∉ removeIgnored (ignoreLint s l₁ toks) lints toks →
+      contextOf l₂ toks = contextOf l₁ toks) := by
+  refine ⟨?_, ?_⟩
+  · intro h0 h1
+    rw [ignore_effect_on_other, h0] at h1
+    simpa using h1
+  · intro lints hm hn
+    rw [ignore_removes_exactly, List.mem_filter] at hn
+    apply Decidable.byContradiction
+    intro hne
+    exact hn ⟨hm, by simpa using hne⟩
+
+/-- non-vacuity of hidden_by_ignore_only_if_twin: both pairs of hypotheses hold for the twin in
+`a thier a thier`, from a NON-empty set (which hides `lintT₃`) -/
+example :
+    let s := ignoreLint [] lintT₃ toksT
+    isIgnored s lintT₂ toksT = false ∧ isIgnored (ignoreLint s lintT₁ toksT) lintT₂ toksT = true ∧
+    lintT₂ ∈ removeIgnored s [lintT₁, lintT₂, lintT₃] toksT ∧
+    lintT₂ ∉ removeIgnored (ignoreLint s lintT₁ toksT) [lintT₁, lintT₂, lintT₃] toksT := by decide
+
+/-- The exception and its completeness as one equivalence, with the context spelled out
+(`context_eq_iff`): a lint that was not hidden becomes hidden by ignoring `l₁` IFF it agrees with
+`l₁` in kind, suggestions, message, priority and in the fat tokens of the three windows `[s-2,s)`,
+`[s,e)`, `[s+2,s+4)` taken together. Position, length and index of the lint do not enter. -/
+theorem newly_hidden_iff_twin (s : IgnoreSet) (l₁ l₂ : LintM) (toks : List Tok)
+    (h0 : isIgnored s l₂ toks = false) :
+    isIgnored (ignoreLint s l₁ toks) l₂ toks = true ↔
+      l₂.kind = l₁.kind ∧ l₂.suggestions = l₁.suggestions ∧ l₂.message = l₁.message ∧
+      l₂.priority = l₁.priority ∧
+      prequel toks l₂ ++ problem toks l₂ ++ sequel toks l₂ =
+        prequel toks l₁ ++ problem toks l₁ ++ sequel toks l₁ := by
+  rw [← context_eq_iff]
+  exact ⟨(hidden_by_ignore_only_if_twin s l₁ l₂ toks).1 h0,
+    fun h => (twin_context_hidden_together s l₁ l₂ toks [] h).1⟩
+
+/-- non-vacuity of newly_hidden_iff_twin: hypothesis and both sides, twin (`lintT₂`) and non-twin
+(`lintU₂`: same fields, the concatenated windows differ) -/
+example : isIgnored [] lintT₂ toksT = false ∧
+    isIgnored (ignoreLint [] lintT₁ toksT) lintT₂ toksT = true ∧
+    isIgnored [] lintU₂ toksU = false ∧ isIgnored (ignoreLint [] lintU₁ toksU) lintU₂ toksU = false ∧
+    prequel toksU lintU₂ ++ problem toksU lintU₂ ++ sequel toksU lintU₂ ≠
+      prequel toksU lintU₁ ++ problem toksU lintU₁ ++ sequel toksU lintU₁ := by decide
+
+/-- Across a sequence: a lint that was reported and is no longer reported after the lints with the
+listed ids were ignored is a twin of (or is) one of those lints, which is one of `lints`. -/
+theorem hidden_by_ignoreIds_only_if_twin (s : IgnoreSet) (lints : List LintM) (toks : List Tok)
+    (ids : List Nat) (l : LintM) (h0 : isIgnored s l toks = false)
+    (h1 : isIgnored (ignoreIds s lints toks ids) l toks = true) :
+    ∃ l' ∈ lints, l'.id ∈ ids ∧ contextOf l toks = contextOf l' toks := by
+  rcases (ignoreIds_hidden_iff s lints toks ids l).mp h1 with h | ⟨i, hi, l', hf, he⟩
+  · rw [h0] at h; cases h
+  · obtain ⟨hm, hid⟩ := idLints_sub (mem_idLints.mpr ⟨i, hi, hf⟩)
+    exact ⟨l', hm, hid, he⟩
+
+/-- non-vacuity of hidden_by_ignoreIds_only_if_twin: `lintT₂` hidden by ignoring ids `[2, 0]` -/
+example : isIgnored [] lintT₂ toksT = false ∧
+    isIgnored (ignoreIds [] [lintT₁, lintT₂, lintT₃] toksT [2, 0]) lintT₂ toksT = true := by decide
+
+/-- A sufficient condition for twins that needs no look at the tokens: two lints on the SAME span
+with the same kind, suggestions, message and priority (e.g. a rule reporting twice) share a context
+in every document. -/
+theorem same_span_same_fields_twin (l₁ l₂ : LintM) (toks : List Tok)
+    (hs : l₂.start = l₁.start) (he : l₂.stop = l₁.stop) (hk : l₂.kind = l₁.kind)
+    (hg : l₂.suggestions = l₁.suggestions) (hm : l₂.message = l₁.message)
+    (hp : l₂.priority = l₁.priority) : contextOf l₂ toks = contextOf l₁ toks := by
+  refine (context_eq_iff l₁ l₂ toks toks).mpr ⟨hk, hg, hm, hp, ?_⟩
+  unfold prequel problem sequel
+  rw [hs, he]
+
+/-- non-vacuity of same_span_same_fields_twin: two lints differing in the id only -/
+example :
+    let l₂ : LintM := { lintT₁ with id := 9 }
+    l₂ ≠ lintT₁ ∧ l₂.start = lintT₁.start ∧ l₂.stop = lintT₁.stop ∧ l₂.kind = lintT₁.kind ∧
+    l₂.suggestions = lintT₁.suggestions ∧ l₂.message = lintT₁.message ∧
+    l₂.priority = lintT₁.priority ∧ contextOf l₂ toksT = contextOf lintT₁ toksT := by decide
+
+end Harper.C14
